@@ -270,7 +270,21 @@ def task_forves(spec, summ):
     rf = stream(spec["seed"], i, "fs")
     viols = []
     from gsim.work import contracts as CT
-    doc = CT.gen_combined(rw, ncontracts=1, nblocks_init=1, nblocks_run=3,
+    blocks = None
+    if rw.random() < 0.5:
+        # segments that the optimizer can empty completely (neutral operations in front of / behind a split instruction):
+        # the two blocks are then segmented differently
+        blocks = []
+        for _ in range(4):
+            neutral = rw.choice([[("PUSH", "0"), ("ADD", None)], [("PUSH", "1"), ("MUL", None)], [("DUP1", None), ("POP", None)],
+                                 [("SWAP1", None), ("SWAP1", None)], [("PUSH", "0"), ("OR", None)]])
+            split = rw.choice([[("DUP1", None), ("DUP1", None), ("LOG0", None)], [("GAS", None), ("POP", None)],
+                               [("DUP1", None), ("DUP1", None), ("DUP1", None), ("CALLDATACOPY", None)]])
+            body = B.gen_block(rw, profile="plain", length=rw.choice([2, 4]), depth=3, pseudo=False, splits=False, ending=False)
+            order = rw.choice([0, 1, 2])
+            items = (neutral + split + body) if order == 0 else (body + split[:-1] + [split[-1]] + neutral) if order == 1 else (body + split + neutral + split)
+            blocks.append(items + [("PUSH [tag]", str(rw.randrange(1, 9))), ("JUMP", None)])
+    doc = CT.gen_combined(rw, ncontracts=1, nblocks_init=1, nblocks_run=3, blocks=blocks,
                           block_kw={"profile": rw.choice(["split", "plain", "memory"]), "length": rw.choice([6, 10, 14])})
     flags, desc = O.draw(stream(spec["seed"], i, "options"), backend="-greedy")
     op = C.asm_op(doc, flags + ["-forves"])
@@ -300,7 +314,7 @@ def task_forves(spec, summ):
             import csv
             import io
             for row in csv.DictReader(io.StringIO(data.decode())):
-                if row.get("solution_found"):
+                if row.get("outcome") == "model":      # (an empty solution_found is a legitimate optimised sub-block)
                     verdicts.append((row.get("block_id"), row.get("forves_checker"), row.get("previous_solution"), row.get("solution_found")))
     if res["exc"] is not None:
         if mode in ("true", "false", "parsing", "missing"):
@@ -349,6 +363,25 @@ def task_forves(spec, summ):
                     viols.append({"class": cls, "detail": "the external checker was shown %r which is not the rendering of any compared pair (e.g. old %r / new %r) and 'true' was reported" % (
                         text[:300], bad_true[0][4][:150], bad_true[0][5][:150]), "replay": rp})
                     break
+    # conversely: a 'true' for a pair with something to compare must correspond to a rendering the peer was actually shown
+    shown = []
+    for text in inputs:
+        segs = [x for x in text.split("#") if x.strip()]
+        pr = []
+        for x in segs:
+            lines = [l for l in x.split("\n") if l.strip()]
+            if len(lines) == 3:
+                pr.append((lines[0].split(), lines[1].split()))
+        shown.append(pr)
+    for bid, verdict, eo, en, old, new in expected:
+        if verdict == "true" and (eo or en):
+            summ["evals"] += 1
+            ok = any(len(pr) == len(eo) == len(en) and all(p[1] == o and p[0] == n for p, o, n in zip(pr, eo, en)) for pr in shown)
+            if not ok:
+                viols.append({"class": ["forves", "verdict", "true-without-faithful-rendering"],
+                              "detail": "block %s is reported 'true' but the external checker was never shown its two sequences (old %r / new %r)" % (
+                                  bid, old[:150], new[:150]), "replay": rp})
+                break
     summ["probes"]["forves_inputs_rendered_faithfully"] = summ["probes"].get("forves_inputs_rendered_faithfully", 0) + rendered_ok
     # peer faults must not be reported as 'true' for pairs that were actually shown to the peer
     if mode in ("false", "parsing") and inputs:
@@ -364,7 +397,7 @@ def task(spec):
     i = spec["index"]
     if i % 8 == 6:
         viols = task_corrupt_peer(spec, summ)
-    elif i % 8 == 7:
+    elif i % 8 in (5, 7):
         viols = task_forves(spec, summ)
     else:
         viols = task_mutants(spec, summ)
